@@ -86,6 +86,8 @@ func theSpec() apib.Spec {
 			// routes without path parameter: nothing in the match is request specific except what the stages add
 			{Method: "POST", Path: "/plain", Consumes: both, Produces: both, Security: &none, Params: []map[string]any{qp, bp}},
 			{Method: "GET", Path: "/list", Produces: both, Security: &key, Params: []map[string]any{qp}},
+			// a produces entry that carries a parameter: what is negotiated is not what producers are keyed by
+			{Method: "GET", Path: "/param/{id}", Produces: []string{"text/plain; charset=utf-8", "application/json"}, Security: &none, Params: []map[string]any{idp, qp}},
 		},
 	}
 }
